@@ -451,38 +451,125 @@ func rangeKeyOf(v ssa.Value) *ssa.Range {
 	return rng
 }
 
-// lockedThroughoutAny: f calls sync Lock before any map update and defers Unlock.
+// lockedThroughoutAny: every map update and lookup in f executes with a sync
+// lock held: on every path from the entry the most recent lock event before
+// the access is Lock, not an explicit Unlock (a deferred Unlock runs at
+// exit and releases nothing earlier). Forward must-analysis over the CFG.
 func lockedThroughoutAny(f *ssa.Function) bool {
-	var lock ssa.Instruction
-	deferred := false
-	core.Instrs(f, func(in ssa.Instruction) {
+	syncCall := func(in ssa.Instruction) string {
 		call, ok := in.(ssa.CallInstruction)
 		if !ok {
-			return
+			return ""
+		}
+		if _, isD := in.(*ssa.Defer); isD {
+			return ""
+		}
+		if _, isG := in.(*ssa.Go); isG {
+			return ""
 		}
 		o := core.CalleeObj(call)
 		if o == nil || o.Pkg() == nil || o.Pkg().Path() != "sync" {
-			return
+			return ""
 		}
-		if _, isD := in.(*ssa.Defer); isD && o.Name() == "Unlock" {
-			deferred = true
-		} else if o.Name() == "Lock" && lock == nil {
-			lock = in
+		switch o.Name() {
+		case "Lock", "Unlock":
+			return o.Name()
 		}
-	})
-	if lock == nil || !deferred {
+		return ""
+	}
+	if len(f.Blocks) == 0 {
 		return false
 	}
-	bad := false
-	core.Instrs(f, func(in ssa.Instruction) {
-		switch in.(type) {
-		case *ssa.MapUpdate, *ssa.Lookup:
-			if found, _ := core.PathFromEntryAvoiding(f, func(i2 ssa.Instruction) bool { return i2 == lock }, func(i2 ssa.Instruction) bool { return i2 == in }); found {
-				bad = true
+	// heldIn[b]: the lock is held at entry of b on every path (optimistic start, iterate down)
+	heldIn := map[*ssa.BasicBlock]bool{}
+	heldOut := map[*ssa.BasicBlock]bool{}
+	for _, b := range f.Blocks {
+		heldIn[b], heldOut[b] = true, true
+	}
+	heldIn[f.Blocks[0]] = false
+	for changed := true; changed; {
+		changed = false
+		for _, b := range f.Blocks {
+			in := b != f.Blocks[0]
+			if in {
+				for _, p := range b.Preds {
+					if !heldOut[p] {
+						in = false
+					}
+				}
+			}
+			st := in
+			for _, ins := range b.Instrs {
+				switch syncCall(ins) {
+				case "Lock":
+					st = true
+				case "Unlock":
+					st = false
+				}
+			}
+			if in != heldIn[b] || st != heldOut[b] {
+				heldIn[b], heldOut[b] = in, st
+				changed = true
 			}
 		}
-	})
-	return !bad
+	}
+	// one critical section: the test and the insertion are atomic only if the
+	// lock is not released and re-taken in between (may-analysis: an explicit
+	// Unlock has happened on some path reaching a Lock)
+	relIn := map[*ssa.BasicBlock]bool{}
+	relOut := map[*ssa.BasicBlock]bool{}
+	for changed := true; changed; {
+		changed = false
+		for _, b := range f.Blocks {
+			in := false
+			for _, p := range b.Preds {
+				in = in || relOut[p]
+			}
+			st := in
+			for _, ins := range b.Instrs {
+				if syncCall(ins) == "Unlock" {
+					st = true
+				}
+			}
+			if in != relIn[b] || st != relOut[b] {
+				relIn[b], relOut[b] = in, st
+				changed = true
+			}
+		}
+	}
+	for _, b := range f.Blocks {
+		st := relIn[b]
+		for _, ins := range b.Instrs {
+			switch syncCall(ins) {
+			case "Unlock":
+				st = true
+			case "Lock":
+				if st {
+					return false
+				}
+			}
+		}
+	}
+	accesses := 0
+	for _, b := range f.Blocks {
+		st := heldIn[b]
+		for _, ins := range b.Instrs {
+			switch syncCall(ins) {
+			case "Lock":
+				st = true
+			case "Unlock":
+				st = false
+			}
+			switch ins.(type) {
+			case *ssa.MapUpdate, *ssa.Lookup:
+				accesses++
+				if !st {
+					return false
+				}
+			}
+		}
+	}
+	return true
 }
 
 // checkGuardedInsertMulti: the fan-out closure of MultiServiceGenerator.Generate.
